@@ -77,7 +77,7 @@ def handle (line : String) : String :=
       match parseFmt f, man.toNat? with
       | some f, some man => match convInt f man with
           | none => "OverflowError"
-          | some v => s!"{pack f v}"
+          | some v => s!"{pack f (ldexpV f v 0)}"
       | _, _ => bad
   | ["ldexp", f, b, k] =>
       match parseFmt f, b.toNat?, k.toInt? with
